@@ -91,7 +91,9 @@ def do_average_bead(molecule, ignore_missing_graphs=False, weight=None):
                 ndim = positions.shape[1]
             except IndexError:
                 ndim = 3
-            if abs(sum(weights)) < 1e-7:
+            # The weights sum to zero when the sum is negligible compared to
+            # the weights themselves; small weights as such are fine.
+            if abs(sum(weights)) <= 1e-7 * sum(abs(weights)):
                 node['position'] = np.array([np.nan]*ndim, dtype=float)
             else:
                 node['position'] = np.average(positions, axis=0, weights=weights)
